@@ -33,6 +33,8 @@ impl<T: Ord> CvRDT for GSet<T> {
     open spec fn cv_inv(&self) -> bool { true }
     open spec fn cv_pre(&self, other: &Self) -> bool { true }
     open spec fn cv_post(old_: &Self, other: &Self, new_: &Self) -> bool { true }
+    open spec fn cv_vhyp() -> bool { true }
+    open spec fn cv_flag(&self, other: &Self) -> bool { false }
 
 //@extract fn src/gset.rs "CvRDT for GSet" validate_merge
     fn validate_merge(&self, _other: &Self) -> /*@ (r: @*/ Result<(), Self::Validation> /*@ ) @*/
@@ -61,6 +63,8 @@ impl<T: Ord> CmRDT for GSet<T> {
     open spec fn cm_pre(&self, op: &T) -> bool { true }
     open spec fn cm_post(old_: &Self, op: &T, new_: &Self) -> bool { true }
     open spec fn cm_vpre(&self, op: &T) -> bool { true }
+    open spec fn cm_vhyp() -> bool { true }
+    open spec fn cm_vflag(&self, op: &Self::Op) -> bool { false }
 
 //@extract fn src/gset.rs "CmRDT for GSet" validate_op
     fn validate_op(&self, _op: &Self::Op) -> /*@ (r: @*/ Result<(), Self::Validation> /*@ ) @*/
